@@ -183,6 +183,23 @@ PROPS = {
                          "name matching are trusted (the model takes their verdicts as inputs)"],
         "assumptions": ["test PKI under harness/pki (generated once with openssl, 20-year validity)", "QUIC connector upstream verification is modelled (always verifies) but not exercised"],
     },
+    "C18": {
+        "props_module": "Redproxy.Props.C18",
+        "mode": "c18",
+        "needs_plain": True,
+        "rule": "(V) every combination of 11 name shapes x 14 type shapes (absent, strings incl. all kind names / deny / unknown, number, bool, null, "
+                "sequence, map) through connectors::from_value and listeners::from_value (exhaustive over the table), (D) duplicate / reserved names "
+                "through from_config, (L) 10 fixed + 40 (300) random load-balancer member graphs (self loops, 2- and 3-cycles, diamonds, chains, "
+                "undefined members) through the real verify, then 12 requests through every accepted balancer, (M) ~1500 mutated documents (delete / "
+                "retype every field with 18 replacement values) of every connector / listener kind, metrics, access log and rule lists through the real "
+                "loaders + init under panic capture, (B) the un-hooked binary with --test on 8 configurations and, when accepted, 3 requests while the "
+                "process is watched; non-trivial = every case; distinct = case lines",
+        "nontrivial": lambda c, i: True,
+        "trusted_base": ["loader / member-graph model Redproxy/Model/Config.lean tied to connectors/mod.rs, listeners/mod.rs, loadbalance.rs by correspondence; "
+                         "serde struct deserialisation is a parameter of the model (exercised by the mutation stream under panic capture, not modelled)"],
+        "assumptions": ["the mutation stream is a sample of malformed documents, not an enumeration"],
+        "timeout": 300,
+    },
     "C08": {
         "props_module": "Redproxy.Props.C08",
         "mode": "c08",
